@@ -2,6 +2,7 @@ package checks
 
 import (
 	"bytes"
+	"context"
 	"encoding/json"
 	"fmt"
 	"math"
@@ -494,6 +495,133 @@ func c20Cases(quick bool) []c20Case {
 			_, _ = w.C("d", "c").Indexes().ListSpecifications(w.Ctx)
 		})
 	}
+	// change streams opened with every operand as resume token, as the ts of a token, as start time
+	for wi, wv := range W {
+		if quick && wi%2 == 1 {
+			continue
+		}
+		wv := wv
+		add("driver-watch-options", true, func() string {
+			return "Watch on client / database / collection with resumeAfter / startAfter = operand, {ts: operand}, {ts: operand, x: 1}, a token of a dropped collection; pipeline = operand; operand " + short(J(wv), 200)
+		}, func(w *world.World) {
+			load(w)
+			c := w.C("d", "c")
+			var tokens []interface{}
+			tokens = append(tokens, wv, bD("ts", wv), bD("ts", wv, "x", int32(1)), bD("x", wv), bD("ts", "drop"), bD())
+			// a real token, and the token of an invalidate event
+			if s, err := c.Watch(w.Ctx, bson.A{}); err == nil {
+				_, _ = c.InsertOne(w.Ctx, bD("_id", "w1"))
+				if s.TryNext(w.Ctx) {
+					tokens = append(tokens, s.ResumeToken())
+				}
+				_ = c.Drop(w.Ctx)
+				for s.TryNext(w.Ctx) {
+				}
+				tokens = append(tokens, s.ResumeToken())
+				_ = s.Close(w.Ctx)
+				load(w)
+			}
+			for _, tok := range tokens {
+				for _, mk := range []func() *options.ChangeStreamOptions{
+					func() *options.ChangeStreamOptions { return options.ChangeStream().SetResumeAfter(tok) },
+					func() *options.ChangeStreamOptions { return options.ChangeStream().SetStartAfter(tok) },
+				} {
+					for _, open := range []func(*options.ChangeStreamOptions) (lungo.IChangeStream, error){
+						func(o *options.ChangeStreamOptions) (lungo.IChangeStream, error) { return c.Watch(w.Ctx, bson.A{}, o) },
+						func(o *options.ChangeStreamOptions) (lungo.IChangeStream, error) {
+							return w.Client.Database("d").Watch(w.Ctx, bson.A{}, o)
+						},
+						func(o *options.ChangeStreamOptions) (lungo.IChangeStream, error) {
+							return w.Client.Watch(w.Ctx, bson.A{}, o)
+						},
+					} {
+						if s, err := open(mk()); err == nil {
+							_, _ = c.InsertOne(w.Ctx, bD("k", int32(1)))
+							s.TryNext(w.Ctx)
+							_ = s.Close(w.Ctx)
+						}
+					}
+				}
+			}
+			if s, err := c.Watch(w.Ctx, wv); err == nil {
+				_ = s.Close(w.Ctx)
+			}
+			for _, ts := range []primitive.Timestamp{{}, {T: 1, I: 1}, {T: math.MaxUint32, I: math.MaxUint32}} {
+				ts := ts
+				if s, err := c.Watch(w.Ctx, bson.A{}, options.ChangeStream().SetStartAtOperationTime(&ts)); err == nil {
+					s.TryNext(w.Ctx)
+					_ = s.Close(w.Ctx)
+				}
+			}
+		})
+	}
+	// session transactions that end up changing nothing, committed and aborted, through every entry point: the next write
+	// (the probe after the case) must go through
+	add("driver-session-clean-transactions", true, func() string {
+		return "session transactions holding only reads, writes that match nothing, no-op updates: CommitTransaction / AbortTransaction / WithTransaction / UseSession, each followed by a plain write"
+	}, func(w *world.World) {
+		load(w)
+		c := w.C("d", "c")
+		bodies := []func(sc lungo.ISessionContext){
+			func(sc lungo.ISessionContext) {},
+			func(sc lungo.ISessionContext) { _, _ = c.CountDocuments(sc, bD()) },
+			func(sc lungo.ISessionContext) {
+				_, _ = c.UpdateMany(sc, bD("_id", "nobody"), bD("$set", bD("z", int32(1))))
+			},
+			func(sc lungo.ISessionContext) { _, _ = c.DeleteMany(sc, bD("_id", "nobody")) },
+			func(sc lungo.ISessionContext) {
+				_, _ = c.UpdateOne(sc, bD("_id", int32(2)), bD("$set", bD("a", int32(1))))
+			},
+		}
+		for _, body := range bodies {
+			body := body
+			for mode := 0; mode < 4; mode++ {
+				switch mode {
+				case 0, 1:
+					if sess, err := w.Client.StartSession(); err == nil {
+						if sess.StartTransaction() == nil {
+							_ = lungo.WithSession(w.Ctx, sess, func(sc lungo.ISessionContext) error { body(sc); return nil })
+							if mode == 0 {
+								_ = sess.CommitTransaction(w.Ctx)
+							} else {
+								_ = sess.AbortTransaction(w.Ctx)
+							}
+						}
+						// (the session is deliberately not ended before the next write)
+						cctx, cancel := context.WithTimeout(w.Ctx, 5*time.Second)
+						if _, err := c.InsertOne(cctx, bD("after", int32(mode))); err != nil {
+							panic(fmt.Sprintf("the write after a clean session transaction (mode %d) failed: %v", mode, err))
+						}
+						cancel()
+						sess.EndSession(w.Ctx)
+					}
+				case 2:
+					if sess, err := w.Client.StartSession(); err == nil {
+						_, _ = sess.WithTransaction(w.Ctx, func(sc lungo.ISessionContext) (interface{}, error) { body(sc); return nil, nil })
+						cctx, cancel := context.WithTimeout(w.Ctx, 5*time.Second)
+						if _, err := c.InsertOne(cctx, bD("after", int32(mode))); err != nil {
+							panic(fmt.Sprintf("the write after a clean WithTransaction failed: %v", err))
+						}
+						cancel()
+						sess.EndSession(w.Ctx)
+					}
+				case 3:
+					_ = w.Client.UseSession(w.Ctx, func(sc lungo.ISessionContext) error {
+						if err := sc.StartTransaction(); err != nil {
+							return err
+						}
+						body(sc)
+						return fmt.Errorf("the caller gives up without aborting")
+					})
+					cctx, cancel := context.WithTimeout(w.Ctx, 5*time.Second)
+					if _, err := c.InsertOne(cctx, bD("after", int32(mode))); err != nil {
+						panic(fmt.Sprintf("the write after a UseSession whose callback left a transaction open failed: %v", err))
+					}
+					cancel()
+				}
+			}
+		}
+	})
 	// GridFS with every chunk size of the extremes, on the bucket and on the upload
 	for _, cs := range []int32{0, -1, 1, 2, math.MinInt32, math.MaxInt32} {
 		cs := cs
